@@ -454,23 +454,30 @@ def binaryClear := binaryOp (fun a b => do let w ← inv b; gate .and a w)
 
 /-! ### circ_index.go -/
 
-/-- `newIndex(cc, bit, length, size, array, index, def, out)`. -/
-def newIndexRec (size : Nat) (index dflt : List Nat) : Nat → Nat → List Nat → BM (List Nat)
-  | 0, _, array => do
-    let n := array.length / size
-    let fVal := array.take size
-    let tVal := if n > 1 then (array.drop size).take size else dflt
+/-- The array operand split into its `k` elements of `size` wires. -/
+def chunks {α : Type} (size : Nat) : Nat → List α → List (List α)
+  | 0, _ => []
+  | k + 1, l => l.take size :: chunks size k (l.drop size)
+
+/-- `newIndex(cc, bit, length, size, array, index, def, out)`; the array is
+passed as its list of elements (`array[:size]` is the first element,
+`array[:length*size]` the first `length` elements, `array[length*size:]` the
+rest). -/
+def newIndexRec (index dflt : List Nat) : Nat → Nat → List (List Nat) → BM (List Nat)
+  | 0, _, els => do
+    let fVal := els.getD 0 dflt
+    let tVal := if els.length > 1 then els.getD 1 dflt else dflt
     muxBits (index.getD 0 0) (tVal.zip fVal)
-  | bit + 1, length, array => do
-    let n := array.length / size
+  | bit + 1, length, els => do
+    let n := els.length
     let length := length / 2
-    let fArray := if n > length then array.take (length * size) else array
+    let fArray := if n > length then els.take length else els
     if bit + 1 ≥ index.length then
-      newIndexRec size index dflt bit length fArray
+      newIndexRec index dflt bit length fArray
     else do
-      let fVal ← newIndexRec size index dflt bit length fArray
+      let fVal ← newIndexRec index dflt bit length fArray
       let tVal ← (if n > length then
-          newIndexRec size index dflt bit length (array.drop (length * size))
+          newIndexRec index dflt bit length (els.drop length)
         else pure dflt)
       muxBits (index.getD (bit + 1) 0) (tVal.zip fVal)
 
@@ -488,7 +495,7 @@ def newIndex (size : Nat) (array index : List Nat) : BM (List Nat) := do
     let bl := indexBits n n 1 2
     let z ← zeroWire
     let dflt := List.replicate size z
-    newIndexRec size index dflt (bl.1 - 1) bl.2 array
+    newIndexRec index dflt (bl.1 - 1) bl.2 (chunks size n array)
 
 /-! ### circ_hamming.go -/
 
